@@ -80,6 +80,66 @@ func runC16(c *core.Ctx) {
 			}
 		})
 		c.Check(ok, "C16/newest-epoch-wins", "fillPublicKeyToValidatorMap/merge", fn.Pos(), "per-epoch maps are merged by a loop over the sorted epoch list", why)
+		// ... the WHOLE sorted list: the loop ranges over the very slice that was sorted, not a window of it
+		var sorted ssa.Value
+		for _, sc := range core.SortCalls(fn) {
+			sorted = sc.Slice
+		}
+		okAll, whyAll := false, "the epoch list handed to sort.Slice was not found"
+		if sorted != nil {
+			whyAll = "no loop ranges over the sorted epoch list"
+			for _, l := range core.Loops(fn) {
+				src := l.RangeSource()
+				if src == nil {
+					continue
+				}
+				if core.ExprKey(src) == core.ExprKey(sorted) || src == sorted {
+					okAll = true
+					// the list lives in a cell when the comparator captures it: it must not be reassigned
+					// between the sort and the loop
+					if ld, isLd := src.(*ssa.UnOp); isLd {
+						if cell, isCell := ld.X.(*ssa.Alloc); isCell && cell.Referrers() != nil {
+							for _, sc := range core.SortCalls(fn) {
+								for _, r := range *cell.Referrers() {
+									if st, isSt := r.(*ssa.Store); isSt && st.Addr == ssa.Value(cell) && core.DominatesInstr(sc.In, st) {
+										okAll = false
+										whyAll = "the sorted epoch list is reassigned (" + core.ExprKey(st.Val) + ") between the sort and the merge loop: the loop no longer ranges over all stored epochs"
+									}
+								}
+							}
+						}
+					}
+				} else if _, isMap := src.Type().Underlying().(*types.Map); !isMap {
+					for x := range core.BackwardReachPure(src) {
+						if sl, isSl := x.(*ssa.Slice); isSl && (sl.High != nil || sl.Low != nil) {
+							whyAll = "the merge loop ranges over a window (" + core.ExprKey(sl) + ") of the sorted epoch list: an epoch (the newest, if the head is kept) is left out of the index"
+						}
+					}
+				}
+			}
+		}
+		c.Check(okAll, "C16/newest-epoch-wins", "fillPublicKeyToValidatorMap/all-epochs-merged", fn.Pos(), "the merge loop ranges over the complete sorted epoch list", whyAll+": lookups by public key report the shard of an older epoch")
+	}
+	// the state saved at the epoch change is the state of the new epoch
+	if fn := anchorM(c, "sharding", "indexHashedNodesCoordinator", "EpochStartAction"); fn != nil {
+		c.Analysed(fname(fn))
+		var save ssa.Instruction
+		for _, in := range core.CallsIn(fn, func(in ssa.Instruction, cc *ssa.CallCommon) bool {
+			return cc.StaticCallee() != nil && cc.StaticCallee().Name() == "saveState"
+		}) {
+			save = in
+		}
+		if save == nil {
+			c.Undecided("C16/saved-state-is-the-new-epoch", "indexHashedNodesCoordinator.EpochStartAction", fn.Pos(), "saveState is not called")
+		} else {
+			esc, path := core.PathQ{Fn: fn, Via: func(in ssa.Instruction) bool {
+				st, ok := in.(*ssa.Store)
+				return ok && isRecvFieldAddr(fn, st.Addr, "currentEpoch")
+			}, Target: func(in ssa.Instruction, _ *ssa.BasicBlock) bool { return in == save }}.Escape()
+			c.Check(esc == nil, "C16/saved-state-is-the-new-epoch", "indexHashedNodesCoordinator.EpochStartAction", save.Pos(),
+				"currentEpoch is advanced before the coordinator's state is saved",
+				"the state is saved before currentEpoch is advanced ("+c.P.PathString(path)+"): after a restart the coordinator resumes one epoch behind, and the next epoch change is computed from the configuration of two epochs ago - validators end up listed in two shards")
+		}
 	}
 }
 
